@@ -8,8 +8,10 @@ HARNESS = "c02"
 DRIVER = "c02"
 PROPS_MODULE = "OxyModel.Props.C10"
 AUDIT = "OxyModel/Audit/C10.lean"
-THEOREMS = ["C10.C10_range", "C10.C10_servable", "C10.C10_once_per_backoff", "C10.C10_outlier_share_not_up",
-            "C10.C10_outlier_means_mixed", "C10.C10_membership_restores", "C10.C10_timer_bound", "C10.C10_outlier_loses", "C10.C10_converges_in_6"]
+THEOREMS = ["C10.C10_range", "C10.C10_servable", "C10.C10_once_per_backoff", "C10.C10_mixed_share_not_up",
+            "C10.C10_outlier_means_mixed", "C10.C10_outlier_share_not_up", "C10.C10_negative_ratings_counterexample",
+            "C10.C10_membership_restores", "C10.C10_timer_bound", "C10.C10_outlier_loses_partial",
+            "C10.C10_outlier_loses_within_partial", "C10.C10_outlier_loses_counterexample", "C10.C10_converges_in_6"]
 RACE = False
 RULE = ("scenario = a Rebalancer (scripted meters, exported API only) over a RoundRobin with 1-6 servers of configured weight 0..5000, "
         "driven by scripts of ratings (failing, recovering, flapping, all failing, exact dyadic ties at the cut, general rationals), readiness "
@@ -20,7 +22,11 @@ ASSUMPTIONS = ["ratings are finite float64 values, modelled by exact rationals. 
                "arithmetic of SplitFloat64 (sums, halves, x1.5) is exact, exact ties at the cut included, and (b) general rationals (denominators 3, 5, 7, 10, "
                "100, 1000) every one of which is at least 2^-40 (relative) away from the cut at each request - readings that come closer are snapped to "
                "multiples of 1/64 by the generator (an extra visible `rate` line); sub-ulp float behaviour is not modelled",
-               "ratings are >= 0 (failure ratios / latencies): C10_outlier_means_mixed; with negative ratings every server can be rated an outlier, a case the property does not speak about",
+               "Meter.Rating() is >= 0: the built-in meter (codeMeter over memmetrics.RatioCounter) returns a ratio in [0,1]. Non-negativity is an explicit "
+               "hypothesis of C10_outlier_share_not_up / C10_outlier_means_mixed; a custom Meter returning negative ratings can make every server an outlier, "
+               "then convergeWeights runs and an outlier's share can rise (C10_negative_ratings_counterexample). The scenarios use ratings >= 0",
+               "the clause 'unless every other server is already at the cap' is proved (and holds in the code) with 'other server' read as 'other server rated good': "
+               "only good servers grow. The literal reading fails (C10_outlier_loses_counterexample, known finding outlier_unless_only_good)",
                "weights fit in Go int; the frozen clock only moves forward",
                "adjustWeights / UpsertServer / RemoveServer are atomic steps (Rebalancer.mtx held: C09 lock facts)"]
 TRUSTED = ["scripted Meter of harness/cmd/c02 (Rating/IsReady set by the scenario)"]
@@ -279,21 +285,28 @@ def monitor(ops, outs):
                             if w[u] * s0 > last_w[u] * s1:
                                 bad.append("outlier-up: share of outlier %s rose from %d/%d to %d/%d" % (u, last_w[u], s0, w[u], s1))
                 if certain and out and good:
-                    # an outlier must lose share unless every other (good) server is at the cap
+                    # an outlier must lose share unless every other server is at the cap
+                    s0, s1 = sum(last_w.values()), sum(w.values())
                     if any(last_w[g] > 0 and 4 * last_w[g] <= CAP for g in good):
-                        s0, s1 = sum(last_w.values()), sum(w.values())
                         for u in out:
                             if last_w[u] > 0 and not (w[u] * s0 < last_w[u] * s1):
                                 bad.append("outlier-keeps: outlier %s kept its share %d/%d -> %d/%d although the timer had expired and a good server was below the cap"
                                            % (u, last_w[u], s0, w[u], s1))
+                    else:
+                        # literal reading of the clause: *any* other server below the cap, other outliers included
+                        for u in out:
+                            others = [x for x in last_w if x != u and last_w[x] > 0 and 4 * last_w[x] <= CAP]
+                            if last_w[u] > 0 and others and not (w[u] * s0 < last_w[u] * s1):
+                                bad.append("outlier-keeps-literal: outlier %s kept its share %d/%d -> %d/%d; every good server is at the cap but %s (also rated an outlier) is not"
+                                           % (u, last_w[u], s0, w[u], s1, others[0]))
                 # --- convergence once ratings stop differing
                 if not out and conv >= 6 and not _proportional(w, conf):
                     bad.append("converge: %d adjustments without outliers but weights %s are not proportional to the configured %s" % (conv, w, conf))
             pending = None
             last_w = w
-        if bad:
-            break
-    return bad
+        if any(not m.startswith("outlier-keeps-literal:") for m in bad):
+            break           # (the recorded finding does not end the scenario: anything after it is still judged)
+    return bad[:20]
 
 
 def _adjustments(ops, outs):
@@ -334,15 +347,23 @@ def describe(ops, outs, hist):
     hist["adjustments-with-outlier"] += nout
 
 
+def _unless_only_good(ops, outs, msgs):
+    return bool(msgs) and all(m.startswith("outlier-keeps-literal:") for m in msgs)
+
+
+KNOWN_MATCHERS = {"outlier_unless_only_good": _unless_only_good}
+
 MANIFEST = {
     "text": ("Proof: Lean 4 theorems C10_range / C10_servable (every history of ratings, readiness, clock steps, requests and membership changes keeps "
              "1 <= effective weight <= max(4096, configured) for positive configured weights and the balancer's weights equal to the rebalancer's), "
-             "C10_once_per_backoff, C10_outlier_share_not_up (cross-multiplied shares, any marking), C10_membership_restores, C10_timer_bound + "
-             "C10_outlier_loses, C10_converges_in_6 hold for the model RB.Reb.adjust of roundrobin/rebalancer.go with memmetrics.SplitFloat64 over exact "
+             "C10_once_per_backoff, C10_mixed_share_not_up / C10_outlier_share_not_up (cross-multiplied shares; non-negative ratings), C10_membership_restores, "
+             "C10_timer_bound + C10_outlier_loses_partial composed into C10_outlier_loses_within_partial (observable weights after adv > back-off and one request), "
+             "C10_converges_in_6 hold for the model RB.Reb.adjust of roundrobin/rebalancer.go with memmetrics.SplitFloat64 over exact "
              "rationals. The model is tied to the code by a differential run of the real Rebalancer over a real RoundRobin (exported API, scripted "
              "meters, frozen clock, one real ServeHTTP per step); a model-independent monitor restates the clauses on the ServerWeight stream."),
     "note": ("Trusted: Lean kernel; propext/Classical.choice/Quot.sound; hand-written model validated against the code only on generated scenarios; "
              "float64 ratings are modelled by exact rationals and exercised with dyadic values (exact in float64, ties at the cut included); "
-             "ratings assumed >= 0 for the outlier clauses; atomicity of adjustWeights is the C09 lock-discipline obligation."),
+             "ratings assumed >= 0 for the outlier clauses (C10_negative_ratings_counterexample otherwise); the 'unless every other server is at the cap' clause is "
+             "proved for 'every other server rated good' (C10_outlier_loses_counterexample: literal reading fails, known finding outlier_unless_only_good); atomicity of adjustWeights is the C09 lock-discipline obligation."),
     "technique": "Lean 4 proof (invariants over all operation sequences + six-step convergence argument) + differential correspondence with roundrobin.Rebalancer",
 }
